@@ -287,6 +287,60 @@ fn clock_straddle(run: &Run) {
     }
 }
 
+/// Delays the first write of a data block, once; changes nothing else.
+struct Stall {
+    millis: u64,
+    done: std::sync::atomic::AtomicBool,
+}
+
+#[async_trait::async_trait]
+impl conserve::transport::hooked::Interceptor for Stall {
+    async fn before(&self, op: &conserve::transport::hooked::Op) -> conserve::transport::hooked::Decision {
+        if crate::icept::V::of(op.verb) == crate::icept::V::Write && op.path.starts_with("d/") && !self.done.swap(true, std::sync::atomic::Ordering::SeqCst) {
+            tokio::time::sleep(std::time::Duration::from_millis(self.millis)).await;
+        }
+        conserve::transport::hooked::Decision::Proceed
+    }
+    async fn after(&self, _op: &conserve::transport::hooked::Op, _result: Result<usize, conserve::transport::ErrorKind>) {}
+}
+
+/// How long storage operations take is not an input either: the same tree is backed up into an
+/// archive on ordinary storage and into one whose first block write stalls (1.2 s in the quick
+/// tier, 31 s in the thorough tier).
+fn slow_storage(run: &Run, tier: Tier) {
+    let sc = crate::scratch::Scratch::new("c17slow");
+    let src = sc.join("src");
+    let mut spec = tree::Snapshot::new();
+    spec.insert("/".into(), tree::Node::dir());
+    for (i, (name, len)) in [("/a", 300usize), ("/big", 150_000), ("/c", 300), ("/d", 20), ("/e", 70_000)].iter().enumerate() {
+        let mut n = tree::Node::file(crate::rng::Rng::for_case(run.seed, i as u64, 1700).bytes(*len));
+        n.mtime_s = 1_600_000_000 + i as i64;
+        spec.insert((*name).into(), n);
+    }
+    tree::sync_to_disk(None, &spec, &src).expect("materialise");
+    let o = cs::Opts { hunk: 100_000, block: 64 << 10, cap: 1 << 10 };
+    let (a, b) = (sc.join("fast"), sc.join("slow"));
+    cs::create_archive(&a);
+    cs::create_archive(&b);
+    run.eval();
+    let _ = cs::backup(cs::local(&a), &src, o, &[], None);
+    let millis = tier.pick(1_200, 31_000);
+    let stall = std::sync::Arc::new(Stall { millis, done: std::sync::atomic::AtomicBool::new(false) });
+    let t = conserve::transport::Transport::local(&b).with_interceptor(1, stall.clone() as std::sync::Arc<dyn conserve::transport::hooked::Interceptor>);
+    let _ = cs::backup(t, &src, o, &[], None);
+    run.count("archive_pairs_compared", 1);
+    if stall.done.load(std::sync::atomic::Ordering::SeqCst) {
+        run.count("replays_with_a_stalled_storage_operation", 1);
+    }
+    if let Some(d) = first_difference(&normalised(&a), &normalised(&b)) {
+        run.violation(
+            "replay-differs:duration-of-storage-operations",
+            format!("one backup on ordinary storage, one whose first block write took {millis} ms longer: {d}"),
+            json!({"slow_storage": true}),
+        );
+    }
+}
+
 pub fn run(tier: Tier, replay: Option<Value>) -> i32 {
     let run = Run::new("C17", "exploration", tier, replay.clone());
     if replay.as_ref().and_then(|r| r.get("many_hunks")).is_some() {
@@ -297,15 +351,19 @@ pub fn run(tier: Tier, replay: Option<Value>) -> i32 {
         clock_straddle(&run);
         return run.finish("replay", &[], None, &[]);
     }
+    if replay.as_ref().and_then(|r| r.get("slow_storage")).is_some() {
+        slow_storage(&run, tier);
+        return run.finish("replay", &[], None, &[]);
+    }
     if replay.is_none() {
-        super::alongside(&run, "the many-hunks and wall-clock replays", || { many_hunks(&run); clock_straddle(&run); }, || run.par_cases(tier.pick(100, 4000), super::threads().min(8), |c| one_history(&run, c)));
+        super::alongside(&run, "the many-hunks and wall-clock replays", || { many_hunks(&run); clock_straddle(&run); slow_storage(&run, tier); }, || run.par_cases(tier.pick(100, 4000), super::threads().min(8), |c| one_history(&run, c)));
     } else {
         run.par_cases(tier.pick(100, 4000), super::threads().min(8), |c| one_history(&run, c));
     }
     run.finish(
-        "histories over {tree mutations, backup(random options), backup killed before its n-th write, delete of a random subset (sometimes with the removal of one particular garbage block failing, a fault addressed by path), gc} are executed in lock-step from the same on-disk source states into a first archive (current-thread tokio runtime) and into one (thorough: two) replica archives on multi-thread runtimes with 2 or 8 workers and random yields/sleeps before every storage operation; after every step the complete directory trees must be byte-identical, BANDHEAD/BANDTAIL compared as JSON without start_time/end_time. Within one process every HashMap instance already gets its own random seed, so hash-order dependence shows up without a second process. One history (backup, change, backup, gc) on a 10 040-file tree with one entry per hunk is replayed the same way. One tree with a file stamped 2 s ahead of the clock is backed up twice before and twice after the clock passes that mtime (the wall clock is not an input). Distinct = history text with >= 3 archive operations.",
+        "histories over {tree mutations, backup(random options), backup killed before its n-th write, delete of a random subset (sometimes with the removal of one particular garbage block failing, a fault addressed by path), gc} are executed in lock-step from the same on-disk source states into a first archive (current-thread tokio runtime) and into one (thorough: two) replica archives on multi-thread runtimes with 2 or 8 workers and random yields/sleeps before every storage operation; after every step the complete directory trees must be byte-identical, BANDHEAD/BANDTAIL compared as JSON without start_time/end_time. Within one process every HashMap instance already gets its own random seed, so hash-order dependence shows up without a second process. One history (backup, change, backup, gc) on a 10 040-file tree with one entry per hunk is replayed the same way. One tree with a file stamped 2 s ahead of the clock is backed up twice before and twice after the clock passes that mtime (the wall clock is not an input). One tree is backed up on ordinary storage and on storage whose first block write stalls for 1.2 s (quick) / 31 s (thorough): how long storage takes is not an input either. Distinct = history text with >= 3 archive operations.",
         &["timestamps in heads and tails are the only allowed difference", "a separate-process replay was not added (per-instance hash seeds make it redundant)"],
         None,
-        &[("archive_pairs_compared", 100), ("killed_backups_replayed", 3), ("histories_completed", 10), ("many_hunks_replays_compared", 1), ("replays_straddling_a_file_mtime", 1)],
+        &[("archive_pairs_compared", 100), ("killed_backups_replayed", 3), ("histories_completed", 10), ("many_hunks_replays_compared", 1), ("replays_straddling_a_file_mtime", 1), ("replays_with_a_stalled_storage_operation", 1)],
     )
 }
